@@ -148,8 +148,69 @@ MODES = {"invert-if": InvertIf, "ifexp-swap": IfExpSwap, "demorgan": DeMorgan, "
          "drop-else": DropElseAfterJump, "split-tuple-assign": SplitTupleAssign}
 
 
+def rename_private(src: str, dst: str) -> int:
+    """Rename every private name of the package (classes, methods, slots, helpers, module
+    constants; not dunders, not the module names) consistently in all files."""
+    import re
+    names = set()
+    files = [f for f in sorted(os.listdir(src)) if f.endswith(".py")]
+    for f in files:
+        tree = ast.parse(open(os.path.join(src, f)).read())
+        for n in ast.walk(tree):
+            cands = []
+            if isinstance(n, ast.Attribute):
+                cands.append(n.attr)
+            if isinstance(n, (ast.FunctionDef, ast.AsyncFunctionDef, ast.ClassDef)):
+                cands.append(n.name)
+            if isinstance(n, ast.Name):
+                cands.append(n.id)
+            if isinstance(n, ast.arg):
+                cands.append(n.arg)
+            for c in cands:
+                if c.startswith("_") and not (c.startswith("__") and c.endswith("__")) and len(c) > 2:
+                    names.add(c)
+    mods = {f[:-3] for f in files}
+    names = {n for n in names if n not in mods and n not in ("_T", "__all__")}
+    os.makedirs(dst, exist_ok=True)
+    if not names:
+        for f in files:
+            open(os.path.join(dst, f), "w").write(open(os.path.join(src, f)).read())
+        return 0
+    pat = re.compile(r"(?<![A-Za-z0-9_])(" + "|".join(sorted(map(re.escape, names), key=len, reverse=True)) + r")(?![A-Za-z0-9_])")
+    for f in files:
+        text = open(os.path.join(src, f)).read()
+        open(os.path.join(dst, f), "w").write(pat.sub(lambda m: m.group(1) + "_rn", text))
+    return len(names)
+
+
+def transform(src: str, dst: str, mode: str) -> int:
+    """Write the ``mode`` variant of the package at ``src`` to ``dst``; returns the number of
+    files (or names) changed."""
+    if mode == "rename-private":
+        return rename_private(src, dst)
+    os.makedirs(dst, exist_ok=True)
+    n = 0
+    for f in sorted(os.listdir(src)):
+        if not f.endswith(".py"):
+            continue
+        text = open(os.path.join(src, f)).read()
+        tree = ast.parse(text)
+        new = MODES[mode]().visit(tree)
+        ast.fix_missing_locations(new)
+        out = ast.unparse(new)
+        if ast.dump(ast.parse(out)) != ast.dump(ast.parse(text)):
+            n += 1
+        open(os.path.join(dst, f), "w").write(out + "\n")
+    return n
+
+
+ALL_MODES = ["rename-private", "rename-locals", "invert-if", "ifexp-swap", "demorgan", "drop-else", "split-tuple-assign"]
+
+
 def main():
     src, dst, mode = sys.argv[1:4]
+    print(mode, "changed:", transform(src, dst, mode))
+    return
     os.makedirs(dst, exist_ok=True)
     n = 0
     for f in sorted(os.listdir(src)):
